@@ -141,7 +141,11 @@ ObsSession(s, gm, line) ==
     buf |-> [out |-> Cardinality(DOMAIN s.outgoing), pl |-> Cardinality(DOMAIN s.pending_local),
              ck |-> Cardinality(DOMAIN s.ck_hist), ep |-> EpBuf(s)],
     lso |-> s.last_sent_outgoing,
-    og |-> SortedSeq(DOMAIN s.outgoing) ]
+    og |-> SortedSeq(DOMAIN s.outgoing),
+    \* local_player_handles(), remote_player_handles(), spectator_handles(): ascending
+    hl |-> << SortedSeq({h \in DOMAIN s.htype : s.htype[h].t = "L"}),
+              SortedSeq({h \in DOMAIN s.htype : s.htype[h].t = "R"}),
+              SortedSeq({h \in DOMAIN s.htype : s.htype[h].t = "S"}) >> ]
 
 \* the harness game executing a request list: <<cells, game, annotated requests>>
 RECURSIVE ExecA(_, _, _, _, _, _)
